@@ -107,6 +107,68 @@ fn apply_edit(text: &mut Vec<char>, e: &Edit, tracked: &mut [Tracked]) {
     }
 }
 
+/// An edit placed just outside the neighbourhood of a tracked ignored lint: a word inserted,
+/// replaced or removed one token beyond the tokens within two characters of the lint.  The
+/// property says the lint stays hidden; anything position- or context-dependent in what the
+/// ignore list remembers shows here first.
+fn gen_edit_near(text: &[char], tracked: &[Tracked], rng: &mut Rng) -> Option<Edit> {
+    let live: Vec<(usize, usize)> = tracked.iter().filter_map(|t| t.span).filter(|(s, e)| s <= e && *e <= text.len()).collect();
+    if live.is_empty() {
+        return None;
+    }
+    let (s, e) = *rng.pick(&live);
+    let wordish = |c: char| c.is_alphanumeric() || c == '\'' || c == '’';
+    let words = ["the", "a", "my", "this", "bulb", "dog", "house", "Paris", "green", "quickly", "runs", "of", "very"];
+    if rng.chance(1, 2) {
+        // to the right: past the window, past the token the window ends in, past one gap
+        let mut p = (e + 2).min(text.len());
+        while p < text.len() && wordish(text[p]) {
+            p += 1;
+        }
+        if p >= text.len() || text[p] != ' ' {
+            // end of text or punctuation: append a word after a space if the text ends here
+            if p == text.len() && p >= e + 2 {
+                return Some(Edit { pos: p, del: 0, ins: format!(" {}", rng.pick(&words)).chars().collect() });
+            }
+            return None;
+        }
+        let q = p + 1; // start of the next token
+        let mut r = q;
+        while r < text.len() && wordish(text[r]) {
+            r += 1;
+        }
+        Some(match rng.below(3) {
+            0 => Edit { pos: q, del: 0, ins: format!("{} ", rng.pick(&words)).chars().collect() },
+            1 if r > q => Edit { pos: q, del: r - q, ins: rng.pick(&words).chars().collect() },
+            _ if r > q && r < text.len() && text[r] == ' ' => Edit { pos: q, del: r - q + 1, ins: vec![] },
+            _ => Edit { pos: q, del: 0, ins: format!("{} ", rng.pick(&words)).chars().collect() },
+        })
+    } else {
+        // to the left
+        let mut p = s.saturating_sub(2);
+        while p > 0 && wordish(text[p - 1]) {
+            p -= 1;
+        }
+        if p == 0 {
+            return if s >= 2 { Some(Edit { pos: 0, del: 0, ins: format!("{} ", rng.pick(&words)).chars().collect() }) } else { None };
+        }
+        if text[p - 1] != ' ' {
+            return None;
+        }
+        let q = p - 1; // the gap before the neighbouring token
+        let mut r = q;
+        while r > 0 && wordish(text[r - 1]) {
+            r -= 1;
+        }
+        Some(match rng.below(3) {
+            0 => Edit { pos: q, del: 0, ins: format!(" {}", rng.pick(&words)).chars().collect() },
+            1 if r < q => Edit { pos: r, del: q - r, ins: rng.pick(&words).chars().collect() },
+            _ if r < q && r > 0 && text[r - 1] == ' ' => Edit { pos: r - 1, del: q - r + 1, ins: vec![] },
+            _ => Edit { pos: q, del: 0, ins: format!(" {}", rng.pick(&words)).chars().collect() },
+        })
+    }
+}
+
 fn gen_edit(text: &[char], rng: &mut Rng) -> Edit {
     let s: String = text.iter().collect();
     match rng.below(8) {
@@ -323,7 +385,14 @@ fn run_core(job: &Job, res: &mut RunResult) {
                 script.push("roundtrip".into());
             }
             _ => {
-                let e = gen_edit(&text, &mut rng);
+                let near = if rng.chance(1, 3) { gen_edit_near(&text, &tracked, &mut rng) } else { None };
+                if near.is_some() {
+                    res.count("c14_edits_next_to_neighbourhood", 1);
+                }
+                let e = match near {
+                    Some(e) => e,
+                    None => gen_edit(&text, &mut rng),
+                };
                 script.push(format!("edit @{} -{} +{:?}", e.pos, e.del, e.ins.iter().collect::<String>()));
                 apply_edit(&mut text, &e, &mut tracked);
                 res.count("c14_edits", 1);
@@ -597,7 +666,14 @@ fn run_wasm(job: &Job, res: &mut RunResult) {
                 script.push("export/clear/import ignored".into());
             }
             3..=6 if prop == "C14" => {
-                let e = gen_edit(&text, &mut rng);
+                let near = if rng.chance(1, 3) { gen_edit_near(&text, &m.tracked, &mut rng) } else { None };
+                if near.is_some() {
+                    res.count("c14_edits_next_to_neighbourhood", 1);
+                }
+                let e = match near {
+                    Some(e) => e,
+                    None => gen_edit(&text, &mut rng),
+                };
                 script.push(format!("edit @{} -{} +{:?}", e.pos, e.del, e.ins.iter().collect::<String>()));
                 apply_edit(&mut text, &e, &mut m.tracked);
                 res.count("c14_edits", 1);
